@@ -184,28 +184,28 @@ pub fn find(params: Params) -> Result<ModuleResult> {
     let patterns_set = get_regex_set(params.patterns)?;
 
     let result: Vec<String> = walk_builder
-        // safe unwrap: default value defined
-        .max_depth(match params.recurse.unwrap() {
+        // an explicit `none` from the lookup overrides the serde defaults
+        .max_depth(match params.recurse.unwrap_or(false) {
             false => Some(1),
             true => None,
         })
         // safe unwrap: default value defined
-        .follow_links(params.follow.unwrap())
+        .follow_links(params.follow.unwrap_or(false))
         // this prevents about unbounded feedback loops
         .skip_stdout(true)
         // safe unwrap: default value defined
         // hidden criterion is opposite for params than for ignore library
-        .hidden(!params.hidden.unwrap())
-        .ignore(!params.hidden.unwrap())
-        .git_global(!params.hidden.unwrap())
-        .git_ignore(!params.hidden.unwrap())
-        .git_exclude(!params.hidden.unwrap())
+        .hidden(!params.hidden.unwrap_or(false))
+        .ignore(!params.hidden.unwrap_or(false))
+        .git_global(!params.hidden.unwrap_or(false))
+        .git_ignore(!params.hidden.unwrap_or(false))
+        .git_exclude(!params.hidden.unwrap_or(false))
         .build()
         .map(|dir_entry| dir_entry.map_err(|e| Error::new(ErrorKind::Other, e)))
         .collect::<Result<Vec<_>>>()?
         .into_iter()
         // safe unwrap: default value defined
-        .filter(|dir_entry| match params.file_type.as_ref().unwrap() {
+        .filter(|dir_entry| match params.file_type.clone().unwrap_or_default() {
             FileType::File => match dir_entry.file_type() {
                 Some(t) => t.is_file(),
                 None => false,
